@@ -210,6 +210,21 @@ class Machine:
                 n = self.hidx(obj)
                 del obj
                 return [how, n]
+            if tag == "split":
+                from dsdobjects.base_classes import StrandS
+                _, dst, src = op
+                if src >= len(S) or S[src] is None or not isinstance(S[src], ComplexS) or isinstance(S[src], StrandS):
+                    return ["skipped"]
+                parts = list(S[src].split())
+                ns = []
+                for k, p in enumerate(parts):
+                    self.hand_out(p)
+                    ns.append(self.hidx(p))
+                    if dst + k < len(S):
+                        S[dst + k] = p
+                p = None
+                del parts
+                return ["split", ns]
             if tag == "drop":
                 if op[1] < len(S):
                     S[op[1]] = None
